@@ -186,17 +186,19 @@ pub struct Src {
     pub fail_at: Option<usize>,
     pub calls: usize,
     pub failed: bool,
+    /// the kind of the injected error
+    pub fail_kind: io::ErrorKind,
 }
 impl Src {
     pub fn new(data: Vec<u8>) -> Self {
-        Src { data, pos: 0, chunk: 0, fail_at: None, calls: 0, failed: false }
+        Src { data, pos: 0, chunk: 0, fail_at: None, calls: 0, failed: false, fail_kind: io::ErrorKind::Other }
     }
     fn tick(&mut self) -> io::Result<()> {
         let k = self.calls;
         self.calls += 1;
         if self.fail_at == Some(k) {
             self.failed = true;
-            return Err(injected());
+            return Err(io::Error::new(self.fail_kind, "injected fault"));
         }
         Ok(())
     }
